@@ -134,6 +134,12 @@ Theorem c01_exactly_once_any_entry : forall k cp s, calls_ok cp = true -> usage_
 Proof. exact bq_client_exactly_once. Qed.
 Print Assumptions c01_exactly_once_any_entry.
 
+(* swap / move construction / move assignment hand the whole queue over: every member is exchanged with the same member of
+   the other queue (the pairing is regenerated from the body of swap), so nothing held by the source is lost *)
+Theorem c01_swap_exchanges_queues : forall this other, swap_this this other = other /\ swap_other this other = this.
+Proof. exact bq_swap_exchanges. Qed.
+Print Assumptions c01_swap_exchanges_queues.
+
 (* real-time order of tickets (FIFO).  held s r u i = thread u holds ticket i of side r in s (acquired, not yet published).
    For any reachable moment s and any later state s' = run s sch: the ticket counters only grow; a ticket that a thread holds in
    s' and did not hold in s is >= the counter at s; a (ticket, value) written / delivered after s by an operation that did not
